@@ -30,6 +30,9 @@ func weightsFor(profile string) map[string]int {
 		return map[string]int{"block": 20, "adv_event": 14, "user_send": 10, "req_batch": 4, "user_cancel": 2, "clock_jump": 2, "sign_all": 1, "huge_fees": 3, "oracle_round": 4, "gov": 2}
 	case "C05size":
 		return map[string]int{"block": 10, "size_burst": 6, "poll_all": 8, "sign_all": 4, "relay": 4, "clock_jump": 3, "ext_deposit": 3, "ext_tick": 2}
+	case "C08":
+		base["batch_race"] = 6
+		base["stake"] = 5
 	case "C04", "C10", "C12", "C13":
 		base["cancel_pair"] = 5
 		base["batch_race"] = 7
@@ -75,6 +78,9 @@ func weightsFor(profile string) map[string]int {
 		base["stake"] = 4
 	case "C01":
 		base["gov"] = 5
+	case "C05":
+		base["gov"] = 4
+		base["clock_jump"] = 5
 	case "C19", "C11":
 		base["oracle_round"] = 3
 		base["user_send"] = 18
@@ -308,11 +314,11 @@ func (g *Gen) Step() {
 	case "orch_sign":
 		g.emit(Intent{T: "orch_sign", V: g.R.Intn(len(w.Vals)), Chain: g.chain(), Net: g.net(), N: 1 + g.R.Intn(10)})
 	case "relay":
-		in := Intent{T: "relay", Chain: g.chain(), Op: []string{"valset", "batch", "batch"}[g.R.Intn(3)], Pick: g.R.Intn(6)}
+		in := Intent{T: "relay", Chain: g.chain(), Op: []string{"valset", "batch", "batch", "batch_stale"}[g.R.Intn(4)], Pick: g.R.Intn(6)}
 		if g.R.Intn(4) == 0 {
 			in.Mask = uint64(g.R.Intn(127) + 1)
 		}
-		if in.Op == "batch" {
+		if in.Op == "batch" || in.Op == "batch_stale" {
 			in.Gas = []string{"0", "1", "21000000000000", "1000000000000000000", "100000000000000000000000"}[g.R.Intn(5)]
 			in.U = g.R.Intn(len(w.Users) + 1)
 		}
@@ -395,7 +401,10 @@ func (g *Gen) Step() {
 	case "gov":
 		// a proposal, yes votes of every validator, then the voting period passes
 		t := g.token()
-		if g.R.Intn(2) == 0 {
+		if (g.Profile == "C05" || g.Profile == "C05adv" || g.Profile == "C05size") && g.R.Intn(2) == 0 {
+			// only where nothing but block processing is judged: a delisted token changes what every other law means
+			g.emit(Intent{T: "gov", Op: "delist", V: g.R.Intn(len(w.Vals)), Pick: g.R.Intn(9)})
+		} else if g.R.Intn(2) == 0 {
 			g.emit(Intent{T: "gov", Op: "cold", V: g.R.Intn(len(w.Vals)), Chain: t.Chain, Denom: t.Denom, Amt: g.amount(new(big.Int).Quo(bigOf(w.Cfg.UserFunds), big.NewInt(10)))})
 		} else {
 			g.emit(Intent{T: "gov", Op: "commission", V: g.R.Intn(len(w.Vals)), Pick: g.R.Intn(9), Amt: commChoices[g.R.Intn(len(commChoices))]})
@@ -482,6 +491,16 @@ func (g *Gen) batchRace() {
 	for k := 0; k < 2; k++ {
 		for v := range w.Vals {
 			g.emit(Intent{T: "orch_poll", V: v, Chain: ch, N: 10, Net: g.net()})
+		}
+		g.emit(Intent{T: "block", Dt: 5, N: 1})
+	}
+	// relayers that kept older confirmed batches try them now
+	for i := g.R.Intn(3); i > 0; i-- {
+		g.emit(Intent{T: "relay", Chain: ch, Op: "batch_stale", Pick: g.R.Intn(8), Gas: "1000"})
+	}
+	if g.R.Intn(2) == 0 {
+		for v := range w.Vals {
+			g.emit(Intent{T: "orch_poll", V: v, Chain: ch, N: 10})
 		}
 		g.emit(Intent{T: "block", Dt: 5, N: 1})
 	}
